@@ -445,3 +445,49 @@ def lockstep128(args):
                         'loop_ok': loop_ok,
                         'whole': None if loop_ok else {'single_call': whole['r'], 'single_call_partner': whole2['r']}})
     return out
+
+
+# ================================================================== one instruction + frame interrupt (C08)
+SP_EDGE = (0x0000, 0x0001, 0x0002, 0x0003, 0x3FFF, 0x4000, 0x4001, 0x4002, 0x8000, 0xFFFF, 0xFFFE)
+
+
+def int_cases(args):
+    """(seed, slot indexes) -> MachineTrace records of ONE boundary each: an instruction that ends inside the INT window
+    with IFF=1, so that the real trace loop accepts the frame interrupt and pushes PC - with SP at every edge of the ROM /
+    RAM / 64K boundaries.  Judged for the C08 state invariants only (field c08 = 1)."""
+    seed, idxs = args
+    cbuild.preload()
+    rnd = random.Random(seed)
+    sl = simdrv.slots()
+    out = []
+    for n, i in enumerate(idxs):
+        c = simdrv.make_case(sl[i], rnd, 1)
+        regs = c['r']
+        pc = rnd.choice((0x8000, 0x6000, 0xC123))
+        ins = [b for _, b in c['ov']]
+        ov = [[(pc + k) % 65536, b] for k, b in enumerate(ins)]
+        regs[PC] = pc
+        regs[IFF] = 1
+        regs[HALT] = 0
+        regs[IM] = rnd.choice((0, 1, 2, 2))
+        regs[I] = rnd.choice((0x80, 0x9F, 0xFE))
+        regs[SP] = SP_EDGE[(n + seed) % len(SP_EDGE)]
+        regs[T] = FRAME48 * rnd.randrange(1, 3) - rnd.randrange(1, 5)
+        vt = regs[I] * 256 + 255
+        ov += [[vt, 0x00], [(vt + 1) % 65536, 0x90], [0x9000, 0xFB], [0x9001, 0xC9], [0x38, 0xFB], [0x39, 0xC9]]
+        d = {}
+        for a, v in ov:
+            d.setdefault(a, v)          # the instruction's own bytes win
+        ov = [[a, v] for a, v in d.items()]
+        inv = simdrv.r8(rnd)
+        for pair in PAIRS:
+            a = Runner(pair[0], regs, ov, inv, True)
+            b = Runner(pair[1], regs, ov, inv, True)
+            oa, ob = a.step(), b.step()
+            oa['r2'] = ob['r']
+            oa['same2'] = 1 if (oa['wr'] == ob['wr'] and oa['io'] == ob['io'] and oa['exc'] == ob['exc']) else 0
+            out.append({'pair': '+'.join(pair), 'kind': 'int-push', 'ints': 1, 'frame': FRAME48, 'ia': IA48, 'inv': inv, 'sem': 0,
+                        'tsem': 1 if pair[0] == 'py' else 0, 'c08': 1, 'r0': list(regs), 'ov0': ov, 'obs': [oa], 'loop_ok': 1,
+                        'whole': None, 'slot': sl[i][1], 'sp': regs[SP],
+                        'accepted': 1 if (oa['r'][IFF] == 0 and oa['r'][SP] == (regs[SP] - 2) % 65536) else 0})
+    return out
